@@ -403,7 +403,8 @@ def partial_branch_mismatch(c, real):
 
 def model_stage_m(chk, cfg, tag, timeout=1500, must_take=("Store", "ManualFlush", "Compact", "CrashRestart", "CleanRestart")):
     """Stage M: exhaustive TLC run on the design parameterisation; fills states/transitions."""
-    r = core.tlc("Storage", cfg, workers=8, timeout=timeout, coverage=True, mem="8g")
+    big = cfg.endswith("_t.cfg")       # thorough configurations: ~10 M states
+    r = core.tlc("Storage", cfg, workers=14 if big else 8, timeout=5400 if big else timeout, coverage=True, mem="24g" if big else "8g")
     core.tlc_ok(r, f"Storage/{cfg} (design parameterisation must satisfy all Storage properties)")
     chk.cov["states"] = r.distinct
     chk.cov["transitions"] = r.generated
